@@ -6,11 +6,16 @@ import common
 import planar
 from common import rat, tf
 
-MODULE = 'GeoVerif.Props.C02'
+MODULE = ['GeoVerif.Props.C02', 'GeoVerif.Props.C02Box']
 THEOREMS = ['GV.C02.' + t for t in (
     'findIntersection_isSome_iff', 'findIntersection_comm', 'findIntersection_point', 'sweep_eq_anyCross',
     'sweep_symm', 'sweep_congr', 'sweep_flip', 'intersects_symm', 'relate_total', 'line_contains_iff_sublist',
-    'contains_imp_intersects', 'relate_dt_free', 'intersects_iff_spec', 'intersects_point_iff', 'contains_iff_spec')]
+    'contains_imp_intersects', 'relate_dt_free', 'intersects_iff_spec', 'intersects_point_iff', 'contains_iff_spec')] + [
+    # closed-set truth proved outright (no Jordan assumption) for every pair of axis-parallel rectangles, box or polygon form
+    'GV.C02Box.' + t for t in (
+    'box_anyCross_iff', 'box_anyCross_iff_meet', 'box_sweep_iff', 'box_intersects_spec', 'box_intersects_iff',
+    'box_intersects_iff_exists', 'box_contains_iff', 'box_contains_iff_forall', 'box_decided_by', 'box_relate_eq',
+    'box_intersects_symm', 'box_contains_imp_intersects', 'box_contains_asymm', 'rect_onEdges_iff', 'box_point_iff')]
 
 
 def _coord(p):
@@ -348,6 +353,12 @@ def placement_tag(A, B):
 def check(run):
     run.prove(MODULE, THEOREMS)
     run.source_tie(['SrcRelate'], 'GeoVerif.Props.C02Src', ['GV.C02Src.' + t for t in ('isOnSegment_eq', 'touches_loop_eq', 'touchesCoordinate_eq', 'containsPoint_eq', 'containsPoly_eq', 'containsLine_eq', 'containsMulti_eq', 'intersectsMulti_eq', 'intersectsPoint_eq', 'intersectsPoly_eq', 'intersectsLine_eq', 'lineContainsPoint_eq', 'lineContainsLine_eq', 'lineContainsPoly_eq', 'lineContainsMulti_eq', 'lineIntersectsMulti_eq', 'lineIntersectsPoint_eq', 'lineIntersectsPoly_eq', 'lineIntersectsLine_eq', 'pointContainsPoint_eq', 'pointContainsOther_eq', 'pointIntersectsPoint_eq', 'pointIntersects_delegates', 'pointContainsMulti_eq', 'src_contains_imp_intersects')])
+    # `_geometry.py` itself: bounds overlap, antimeridian un-wrapping, segment intersection and the edge sweep (incl. its local
+    # `_Event` class and `_create_events`), translated and proved equal to Model/SegInt + Model/Sweep
+    run.source_tie(['SrcSweep'], 'GeoVerif.Props.C02SrcSweep', ['GV.C02SrcSweep.' + t for t in (
+        'doBoundsOverlap_eq', 'ensureEdgeBounds_eq', 'findLineIntersection_eq', 'findLineIntersection_eq_model', 'event_hash_iff',
+        'lt_eq', 'create_events_eq', 'loop2_eq', 'loop1_eq', 'doEdgesIntersect_eq_sweep', 'doEdgesIntersect_eq_model',
+        'src_findLineIntersection_isSome_iff', 'src_sweep_eq_anyCross')])
     run.corpus(impl, spec)
     rng = run.rng
 
@@ -409,9 +420,10 @@ def check(run):
                 meta.append(tag)
         # the same pair with time bounds: the spatial predicates must not look at them
         A2, B2 = with_dt(A, da), with_dt(B, db)
-        for op in ('inter', 'contains'):
-            lines.append(f'rel.{op} {A2.tokens()} | {B2.tokens()}')
-            meta.append(tag + '+dt')
+        for X, Y in ((A2, B2), (B2, A2)):
+            for op in ('inter', 'contains'):
+                lines.append(f'rel.{op} {X.tokens()} | {Y.tokens()}')
+                meta.append(tag + '+dt')
     tags = dict(zip(lines, meta))
     outs = run.run_cases('shape-pairs', lines, impl, spec,
                          tag=lambda ln, a: [f'{ln.split()[0]}:{tags.get(ln, "?")}:{a if a in "TF" else "ERR"}',
@@ -435,6 +447,18 @@ def check(run):
     # 3·. every relational placement of `derive`, for shapes with and without holes, in every run (random choice of the
     #     placement left the rarer ones — a concentric annulus around a hole, a shape straddling a hole edge — to luck)
     lines4 = []
+    dt_cycle = itertools.cycle([(DTS[3], DTS[4]), (DTS[4], DTS[3]), (DTS[1], DTS[3]), (DTS[5], DTS[3]), (DTS[3], DTS[5]), (DTS[2], DTS[1]),
+                                (DTS[0], DTS[4]), (DTS[4], DTS[0])])
+
+    def timed_both_orders(A, B):
+        # every placement is also asked in BOTH argument orders with time bounds attached (disjoint, nested either way, instant
+        # in / next to an interval, one side without): a receiver-specific fallback that goes through the time-aware
+        # `in` / `==` shows only for that receiver (seeded change C02-t3: a path strictly inside a polygon, path as receiver)
+        da, db = next(dt_cycle)
+        A2, B2 = with_dt(A, da), with_dt(B, db)
+        for X, Y in ((A2, B2), (B2, A2)):
+            for op in ('inter', 'contains'):
+                lines4.append(f'rel.{op} {X.tokens()} | {Y.tokens()}')
     for rep in range(run.scale(3, 12)):
         bases = [rnd_poly(rng, holes_ok=False), rnd_box(rng), next(q for q in iter(lambda: rnd_poly(rng), None) if q.holes),
                  next(q for q in iter(lambda: rnd_box(rng), None) if q.holes)]
@@ -447,6 +471,7 @@ def check(run):
                     for X, Y in ((A, B), (B, A)):
                         for op in ('inter', 'contains'):
                             lines4.append(f'rel.{op} {X.tokens()} | {Y.tokens()}')
+                    timed_both_orders(A, B)
         for _ in range(4):      # paths, incl. axis-parallel segments, against every placement of theirs
             A = rnd_line(rng) if rng.random() < 0.5 else planar.PShape('line', pts=[(F(1), F(0)), (F(1), F(2)), (F(3), F(2))])
             for k in range(6):
@@ -454,6 +479,7 @@ def check(run):
                 for X, Y in ((A, B), (B, A)):
                     for op in ('inter', 'contains'):
                         lines4.append(f'rel.{op} {X.tokens()} | {Y.tokens()}')
+                timed_both_orders(A, B)
         # the same shell with and without its holes, asked about in both orders within one process: shapes that are equal
         # as far as `hash` looks (the hash leaves holes out) are still different shapes (seeded change C02-r2 memoised
         # `edges()` under `hash(self)`)
